@@ -3,7 +3,7 @@
   tokens ahead) no function of it returns `fuelOut`; every error is positioned at a token;
   a successful `parseExpr` consumed at least one real token.
 -/
-import SoyVerif.Lemmas.ParserSafe
+import SoyVerif.Lemmas.ParserPos
 
 set_option linter.unusedSimpArgs false
 set_option linter.unusedVariables false
@@ -46,37 +46,41 @@ variable (pf : Bytes → Option UInt64) (AP : Prop) (EL : Lvl) (S : Item → Pro
 def EPost (st : PState) (d : Nat) {α : Type} : α → PState → Prop :=
   fun _ st' => Inv EL S st' ∧ mu st' + d ≤ mu st
 
+/-- … and the tree returned satisfies `R` (positions of its nodes: `EP`, `EPs`, `EPm`, `EPa`) -/
+def EPostR (st : PState) (d : Nat) {α : Type} (R : α → Prop) : α → PState → Prop :=
+  fun a st' => Inv EL S st' ∧ mu st' + d ≤ mu st ∧ R a
+
 /-- the specifications of all expression functions at one fuel level -/
 structure ExprSpecs (fuel : Nat) : Prop where
-  parseExpr : ∀ prec st, Inv EL S st → 8 * mu st + 10 ≤ fuel → PSafe AP EL S (parseExpr pf fuel prec) st (EPost EL S st 1)
-  exprLoop : ∀ prec n st, Inv EL S st → 8 * mu st + 17 ≤ fuel → PSafe AP EL S (exprLoop pf fuel prec n) st (EPost EL S st 0)
-  firstTerm : ∀ st, Inv EL S st → 8 * mu st + 9 ≤ fuel → PSafe AP EL S (parseExprFirstTerm pf fuel) st (EPost EL S st 1)
-  newValueNode : ∀ tok st, S tok → isValue tok.typ = true → Inv EL S st → 8 * mu st + 16 ≤ fuel → PSafe AP EL S (newValueNode pf fuel tok) st (EPost EL S st 0)
-  parseDataRef : ∀ st, Inv EL S st → 8 * mu st + 15 ≤ fuel → PSafe AP EL S (parseDataRef pf fuel) st (EPost EL S st 0)
-  parseListOrMap : ∀ tok st, S tok → Inv EL S st → 8 * mu st + 15 ≤ fuel → PSafe AP EL S (parseListOrMap pf fuel tok) st (EPost EL S st 0)
-  parseListItems : ∀ st, Inv EL S st → 8 * mu st + 12 ≤ fuel → PSafe AP EL S (parseListItems pf fuel) st (EPost EL S st 0)
-  parseMapItems : ∀ k m st, Inv EL S st → 8 * mu st + 12 ≤ fuel → PSafe AP EL S (parseMapItems pf fuel k m) st (EPost EL S st 0)
-  parseTernary : ∀ c st, Inv EL S st → 8 * mu st + 12 ≤ fuel → PSafe AP EL S (parseTernary pf fuel c) st (EPost EL S st 0)
-  newGlobalNode : ∀ p n nxt st, S nxt → InvW EL S st → st.peekCount ≤ 1 → top st = nxt → 8 * (mu st + real nxt) + 8 ≤ fuel →
-    PSafe AP EL S (newGlobalNode pf fuel p n nxt) st (fun _ st' => Inv EL S st' ∧ mu st' ≤ mu st + real nxt)
-  newFunctionNode : ∀ tok st, Inv EL S st → 8 * mu st + 13 ≤ fuel → PSafe AP EL S (newFunctionNode pf fuel tok) st (EPost EL S st 0)
-  parseFuncArgs : ∀ st, Inv EL S st → 8 * mu st + 12 ≤ fuel → PSafe AP EL S (parseFuncArgs pf fuel) st (EPost EL S st 0)
+  parseExpr : ∀ prec st, Inv EL S st → 8 * mu st + 10 ≤ fuel → PSafe AP EL S (parseExpr pf fuel prec) st (EPostR EL S st 1 (EP S))
+  exprLoop : ∀ prec n st, EP S n → Inv EL S st → 8 * mu st + 17 ≤ fuel → PSafe AP EL S (exprLoop pf fuel prec n) st (EPostR EL S st 0 (EP S))
+  firstTerm : ∀ st, Inv EL S st → 8 * mu st + 9 ≤ fuel → PSafe AP EL S (parseExprFirstTerm pf fuel) st (EPostR EL S st 1 (EP S))
+  newValueNode : ∀ tok st, S tok → isValue tok.typ = true → Inv EL S st → 8 * mu st + 16 ≤ fuel → PSafe AP EL S (newValueNode pf fuel tok) st (EPostR EL S st 0 (EP S))
+  parseDataRef : ∀ st, Inv EL S st → 8 * mu st + 15 ≤ fuel → PSafe AP EL S (parseDataRef pf fuel) st (EPostR EL S st 0 (EPa S))
+  parseListOrMap : ∀ tok st, S tok → Inv EL S st → 8 * mu st + 15 ≤ fuel → PSafe AP EL S (parseListOrMap pf fuel tok) st (EPostR EL S st 0 (EP S))
+  parseListItems : ∀ st, Inv EL S st → 8 * mu st + 12 ≤ fuel → PSafe AP EL S (parseListItems pf fuel) st (EPostR EL S st 0 (EPs S))
+  parseMapItems : ∀ k m st, EPm S m → Inv EL S st → 8 * mu st + 12 ≤ fuel → PSafe AP EL S (parseMapItems pf fuel k m) st (EPostR EL S st 0 (EPm S))
+  parseTernary : ∀ c st, EP S c → Inv EL S st → 8 * mu st + 12 ≤ fuel → PSafe AP EL S (parseTernary pf fuel c) st (EPostR EL S st 0 (EP S))
+  newGlobalNode : ∀ p n nxt st, PosOK S p → S nxt → InvW EL S st → st.peekCount ≤ 1 → top st = nxt → 8 * (mu st + real nxt) + 8 ≤ fuel →
+    PSafe AP EL S (newGlobalNode pf fuel p n nxt) st (fun e st' => Inv EL S st' ∧ mu st' ≤ mu st + real nxt ∧ EP S e)
+  newFunctionNode : ∀ tok st, S tok → Inv EL S st → 8 * mu st + 13 ≤ fuel → PSafe AP EL S (newFunctionNode pf fuel tok) st (EPostR EL S st 0 (EP S))
+  parseFuncArgs : ∀ st, Inv EL S st → 8 * mu st + 12 ≤ fuel → PSafe AP EL S (parseFuncArgs pf fuel) st (EPostR EL S st 0 (EPs S))
 
 variable (hz : S Item.zero) (hwf : ∀ it, S it → AP ∨ WFItem it)
 include hz hwf
 
 theorem parseExpr_ok {fuel : Nat} (ih : ExprSpecs pf AP EL S fuel) (prec : Nat) (st : PState) (hi : Inv EL S st)
-    (hf : 8 * mu st + 10 ≤ fuel + 1) : PSafe AP EL S (Parser.parseExpr pf (fuel + 1) prec) st (EPost EL S st 1) := by
+    (hf : 8 * mu st + 10 ≤ fuel + 1) : PSafe AP EL S (Parser.parseExpr pf (fuel + 1) prec) st (EPostR EL S st 1 (EP S)) := by
   unfold Parser.parseExpr
   apply PSafe.bind
   apply (ih.firstTerm st hi (by omega)).mono
-  intro n st1 ⟨hi1, hm1⟩
-  apply (ih.exprLoop prec n st1 hi1 (by omega)).mono
-  intro e st2 ⟨hi2, hm2⟩
-  exact ⟨hi2, by omega⟩
+  intro n st1 ⟨hi1, hm1, hp1⟩
+  apply (ih.exprLoop prec n st1 hp1 hi1 (by omega)).mono
+  intro e st2 ⟨hi2, hm2, hp2⟩
+  exact ⟨hi2, by omega, hp2⟩
 
-theorem exprLoop_ok {fuel : Nat} (ih : ExprSpecs pf AP EL S fuel) (prec : Nat) (n : Expr) (st : PState) (hi : Inv EL S st)
-    (hf : 8 * mu st + 17 ≤ fuel + 1) : PSafe AP EL S (Parser.exprLoop pf (fuel + 1) prec n) st (EPost EL S st 0) := by
+theorem exprLoop_ok {fuel : Nat} (ih : ExprSpecs pf AP EL S fuel) (prec : Nat) (n : Expr) (st : PState) (hn : EP S n) (hi : Inv EL S st)
+    (hf : 8 * mu st + 17 ≤ fuel + 1) : PSafe AP EL S (Parser.exprLoop pf (fuel + 1) prec n) st (EPostR EL S st 0 (EP S)) := by
   unfold Parser.exprLoop
   apply PSafe.bind
   apply next_safe hz hi
@@ -86,14 +90,14 @@ theorem exprLoop_ok {fuel : Nat} (ih : ExprSpecs pf AP EL S fuel) (prec : Nat) (
   · split
     · rename_i hq
       have hr : real tok = 1 := real_of_beq (by simp only [Bool.and_eq_true] at hq; exact hq.2) (by decide)
-      apply (ih.parseTernary n st1 (upw% hi1) (by omega)).mono
-      intro e st2 ⟨hi2, hm2⟩
-      exact ⟨hi2, by omega⟩
+      apply (ih.parseTernary n st1 hn (upw% hi1) (by omega)).mono
+      intro e st2 ⟨hi2, hm2, hp2⟩
+      exact ⟨hi2, by omega, hp2⟩
     · apply PSafe.bind
       apply backup_safe hi1 (by have := hi.1; omega)
       intro st2 hi2 hm2 _
       apply PSafe.pure
-      exact ⟨hi2, by rw [ht1] at hm2; omega⟩
+      exact ⟨hi2, by rw [ht1] at hm2; omega, hn⟩
   · rename_i hb
     have hb' : isBinaryOp tok.typ = true := by
       simp only [Bool.or_eq_true, Bool.not_eq_true', decide_eq_true_eq, not_or, Bool.not_eq_false] at hb
@@ -101,17 +105,17 @@ theorem exprLoop_ok {fuel : Nat} (ih : ExprSpecs pf AP EL S fuel) (prec : Nat) (
     have hr := real_of_binary hb'
     apply PSafe.bind
     apply (ih.parseExpr _ st1 (upw% hi1) (by omega)).mono
-    intro rhs st2 ⟨hi2, hm2⟩
+    intro rhs st2 ⟨hi2, hm2, hp2⟩
     split
-    · apply (ih.exprLoop prec _ st2 hi2 (by omega)).mono
-      intro e st3 ⟨hi3, hm3⟩
-      exact ⟨hi3, by omega⟩
+    · apply (ih.exprLoop prec _ st2 (by simp only [EP]; exact ⟨posOK_of hs1, hn, hp2⟩) hi2 (by omega)).mono
+      intro e st3 ⟨hi3, hm3, hp3⟩
+      exact ⟨hi3, by omega, hp3⟩
     · rename_i hnone
       exact absurd hnone (binOpOf_isSome hb')
 
 
 theorem firstTerm_ok {fuel : Nat} (ih : ExprSpecs pf AP EL S fuel) (st : PState) (hi : Inv EL S st)
-    (hf : 8 * mu st + 9 ≤ fuel + 1) : PSafe AP EL S (Parser.parseExprFirstTerm pf (fuel + 1)) st (EPost EL S st 1) := by
+    (hf : 8 * mu st + 9 ≤ fuel + 1) : PSafe AP EL S (Parser.parseExprFirstTerm pf (fuel + 1)) st (EPostR EL S st 1 (EP S)) := by
   unfold Parser.parseExprFirstTerm
   apply PSafe.bind
   apply next_safe hz hi
@@ -122,11 +126,11 @@ theorem firstTerm_ok {fuel : Nat} (ih : ExprSpecs pf AP EL S fuel) (st : PState)
     have hr := real_of_unary hu
     apply PSafe.bind
     apply (ih.parseExpr _ st1 (upw% hi1) (by omega)).mono
-    intro arg st2 ⟨hi2, hm2⟩
+    intro arg st2 ⟨hi2, hm2, hp2⟩
     split
-    · exact PSafe.pure ⟨hi2, by omega⟩
+    · exact PSafe.pure ⟨hi2, by omega, by simp only [EP]; exact ⟨posOK_of hs1, hp2⟩⟩
     split
-    · exact PSafe.pure ⟨hi2, by omega⟩
+    · exact PSafe.pure ⟨hi2, by omega, by simp only [EP]; exact ⟨posOK_of hs1, hp2⟩⟩
     · rename_i h1 h2
       rcases unary_cases hu with h | h <;> simp [h] at h1 h2
   split
@@ -134,71 +138,73 @@ theorem firstTerm_ok {fuel : Nat} (ih : ExprSpecs pf AP EL S fuel) (st : PState)
     have hr := real_of_beq hp (by decide)
     apply PSafe.bind
     apply (ih.parseExpr _ st1 (upw% hi1) (by omega)).mono
-    intro n st2 ⟨hi2, hm2⟩
+    intro n st2 ⟨hi2, hm2, hp2⟩
     apply PSafe.bind
     apply expect_safe hz hi2 (by decide)
     intro it st3 hi3 hs3 _ _ hm3 _
-    exact PSafe.pure ⟨hi3, by omega⟩
+    exact PSafe.pure ⟨hi3, by omega, hp2⟩
   split
   · rename_i hv
     have hr := real_of_value hv
     apply (ih.newValueNode tok st1 hs1 hv (upw% hi1) (by omega)).mono
-    intro e st2 ⟨hi2, hm2⟩
-    exact ⟨hi2, by omega⟩
+    intro e st2 ⟨hi2, hm2, hp2⟩
+    exact ⟨hi2, by omega, hp2⟩
   · exact unexpected_safe hi1 hs1
 
 theorem newValueNode_ok {fuel : Nat} (ih : ExprSpecs pf AP EL S fuel) (tok : Item) (st : PState) (hst : S tok)
     (hv : isValue tok.typ = true) (hi : Inv EL S st) (hf : 8 * mu st + 16 ≤ fuel + 1) :
-    PSafe AP EL S (Parser.newValueNode pf (fuel + 1) tok) st (EPost EL S st 0) := by
+    PSafe AP EL S (Parser.newValueNode pf (fuel + 1) tok) st (EPostR EL S st 0 (EP S)) := by
+  have hpt : PosOK S tok.pos := posOK_of hst
   unfold Parser.newValueNode
   split
-  · exact PSafe.pure ⟨hi, by omega⟩
-  · exact PSafe.pure ⟨hi, by omega⟩
+  · exact PSafe.pure ⟨hi, by omega, by simp only [EP]; exact hpt⟩
+  · exact PSafe.pure ⟨hi, by omega, by simp only [EP]; exact hpt⟩
   · split
-    · exact PSafe.pure ⟨hi, by omega⟩
+    · exact PSafe.pure ⟨hi, by omega, by simp only [EP]; exact hpt⟩
     · exact errorf_safe hi
   · split
-    · exact PSafe.pure ⟨hi, by omega⟩
+    · exact PSafe.pure ⟨hi, by omega, by simp only [EP]; exact hpt⟩
     · exact errorf_safe hi
   · split
-    · exact PSafe.pure ⟨hi, by omega⟩
+    · exact PSafe.pure ⟨hi, by omega, by simp only [EP]; exact hpt⟩
     · exact errorf_safe hi
   · apply (ih.parseListOrMap tok st hst hi (by omega)).mono
-    intro e st2 ⟨hi2, hm2⟩
-    exact ⟨hi2, by omega⟩
+    intro e st2 ⟨hi2, hm2, hp2⟩
+    exact ⟨hi2, by omega, hp2⟩
   · rename_i hty
     apply PSafe.bind
     apply tail1_safe (val_ne1 (hwf tok hst) (Or.inl hty))
     intro _ key _
     apply PSafe.bind
     apply (ih.parseDataRef st hi (by omega)).mono
-    intro acc st2 ⟨hi2, hm2⟩
-    exact PSafe.pure ⟨hi2, by omega⟩
+    intro acc st2 ⟨hi2, hm2, hp2⟩
+    exact PSafe.pure ⟨hi2, by omega, by simp only [EP]; exact ⟨hpt, hp2⟩⟩
   · apply PSafe.bind
     apply next_safe hz hi
     intro nxt st1 hi1 hs1 hpc1 ht1 hm1 _
     try dsimp only
     split
-    · apply (ih.newGlobalNode _ _ nxt st1 hs1 hi1 (by have := hi.1; omega) ht1 (by have := real_le nxt; omega)).mono
-      intro e st2 ⟨hi2, hm2⟩
-      exact ⟨hi2, by omega⟩
+    · apply (ih.newGlobalNode _ _ nxt st1 hpt hs1 hi1 (by have := hi.1; omega) ht1 (by have := real_le nxt; omega)).mono
+      intro e st2 ⟨hi2, hm2, hp2⟩
+      exact ⟨hi2, by omega, hp2⟩
     · rename_i hp
       have hp' : nxt.typ = .tLeftParen := by simpa using hp
       have hr := real_of_eq hp' (by decide)
-      apply (ih.newFunctionNode tok st1 (upw% hi1) (by omega)).mono
-      intro e st2 ⟨hi2, hm2⟩
-      exact ⟨hi2, by omega⟩
+      apply (ih.newFunctionNode tok st1 hst (upw% hi1) (by omega)).mono
+      intro e st2 ⟨hi2, hm2, hp2⟩
+      exact ⟨hi2, by omega, hp2⟩
   · exfalso
     rename_i h1 h2 h3 h4 h5 h6 h7 h8
     revert hv h1 h2 h3 h4 h5 h6 h7 h8
     cases tok.typ <;> simp [isValue]
 
 theorem parseDataRef_ok {fuel : Nat} (ih : ExprSpecs pf AP EL S fuel) (st : PState) (hi : Inv EL S st)
-    (hf : 8 * mu st + 15 ≤ fuel + 1) : PSafe AP EL S (Parser.parseDataRef pf (fuel + 1)) st (EPost EL S st 0) := by
+    (hf : 8 * mu st + 15 ≤ fuel + 1) : PSafe AP EL S (Parser.parseDataRef pf (fuel + 1)) st (EPostR EL S st 0 (EPa S)) := by
   unfold Parser.parseDataRef
   apply PSafe.bind
   apply next_safe hz hi
   intro tok st1 hi1 hs1 hpc1 ht1 hm1 _
+  have hpt : PosOK S tok.pos := posOK_of hs1
   try dsimp only
   split
   · rename_i ht
@@ -207,15 +213,15 @@ theorem parseDataRef_ok {fuel : Nat} (ih : ExprSpecs pf AP EL S fuel) (st : PSta
     apply PSafe.bind; apply tail1_safe (val_ne2b (hwf tok hs1) (Or.inl ht) hv1); intro _ k _
     apply PSafe.bind
     apply (ih.parseDataRef st1 (upw% hi1) (by omega)).mono
-    intro r st2 ⟨hi2, hm2⟩
-    exact PSafe.pure ⟨hi2, by omega⟩
+    intro r st2 ⟨hi2, hm2, hp2⟩
+    exact PSafe.pure ⟨hi2, by omega, by simp only [EPa]; exact ⟨hpt, hp2⟩⟩
   · rename_i ht
     have hr := real_of_eq ht (by decide)
     apply PSafe.bind; apply tail1_safe (val_ne1 (hwf tok hs1) (Or.inr (Or.inl ht))); intro _ k _
     apply PSafe.bind
     apply (ih.parseDataRef st1 (upw% hi1) (by omega)).mono
-    intro r st2 ⟨hi2, hm2⟩
-    exact PSafe.pure ⟨hi2, by omega⟩
+    intro r st2 ⟨hi2, hm2, hp2⟩
+    exact PSafe.pure ⟨hi2, by omega, by simp only [EPa]; exact ⟨hpt, hp2⟩⟩
   · rename_i ht
     have hr := real_of_eq ht (by decide)
     apply PSafe.bind; apply tail1_safe (val_ne2a (hwf tok hs1) (Or.inr ht)); intro b1 r1 hv1
@@ -223,8 +229,8 @@ theorem parseDataRef_ok {fuel : Nat} (ih : ExprSpecs pf AP EL S fuel) (st : PSta
     split
     · apply PSafe.bind
       apply (ih.parseDataRef st1 (upw% hi1) (by omega)).mono
-      intro r st2 ⟨hi2, hm2⟩
-      exact PSafe.pure ⟨hi2, by omega⟩
+      intro r st2 ⟨hi2, hm2, hp2⟩
+      exact PSafe.pure ⟨hi2, by omega, by simp only [EPa]; exact ⟨hpt, hp2⟩⟩
     · exact errorf_safe hi1
   · rename_i ht
     have hr := real_of_eq ht (by decide)
@@ -232,42 +238,43 @@ theorem parseDataRef_ok {fuel : Nat} (ih : ExprSpecs pf AP EL S fuel) (st : PSta
     split
     · apply PSafe.bind
       apply (ih.parseDataRef st1 (upw% hi1) (by omega)).mono
-      intro r st2 ⟨hi2, hm2⟩
-      exact PSafe.pure ⟨hi2, by omega⟩
+      intro r st2 ⟨hi2, hm2, hp2⟩
+      exact PSafe.pure ⟨hi2, by omega, by simp only [EPa]; exact ⟨hpt, hp2⟩⟩
     · exact errorf_safe hi1
   · rename_i ht
     have hr := real_of_eq ht (by decide)
     apply PSafe.bind
     apply (ih.parseExpr _ st1 (upw% hi1) (by omega)).mono
-    intro e st2 ⟨hi2, hm2⟩
+    intro e st2 ⟨hi2, hm2, hpe⟩
     apply PSafe.bind
     apply expect_safe hz hi2 (by decide)
     intro it st3 hi3 hs3 _ _ hm3 _
     apply PSafe.bind
     apply (ih.parseDataRef st3 hi3 (by omega)).mono
-    intro r st4 ⟨hi4, hm4⟩
-    exact PSafe.pure ⟨hi4, by omega⟩
+    intro r st4 ⟨hi4, hm4, hp4⟩
+    exact PSafe.pure ⟨hi4, by omega, by simp only [EPa]; exact ⟨hpt, hpe, hp4⟩⟩
   · rename_i ht
     have hr := real_of_eq ht (by decide)
     apply PSafe.bind
     apply (ih.parseExpr _ st1 (upw% hi1) (by omega)).mono
-    intro e st2 ⟨hi2, hm2⟩
+    intro e st2 ⟨hi2, hm2, hpe⟩
     apply PSafe.bind
     apply expect_safe hz hi2 (by decide)
     intro it st3 hi3 hs3 _ _ hm3 _
     apply PSafe.bind
     apply (ih.parseDataRef st3 hi3 (by omega)).mono
-    intro r st4 ⟨hi4, hm4⟩
-    exact PSafe.pure ⟨hi4, by omega⟩
+    intro r st4 ⟨hi4, hm4, hp4⟩
+    exact PSafe.pure ⟨hi4, by omega, by simp only [EPa]; exact ⟨hpt, hpe, hp4⟩⟩
   · apply PSafe.bind
     apply backup_safe hi1 (by have := hi.1; omega)
     intro st2 hi2 hm2 _
-    exact PSafe.pure ⟨hi2, by rw [ht1] at hm2; omega⟩
+    exact PSafe.pure ⟨hi2, by rw [ht1] at hm2; omega, by simp only [EPa]⟩
 
 
 theorem parseListOrMap_ok {fuel : Nat} (ih : ExprSpecs pf AP EL S fuel) (token : Item) (st : PState) (hst : S token)
     (hi : Inv EL S st) (hf : 8 * mu st + 15 ≤ fuel + 1) :
-    PSafe AP EL S (Parser.parseListOrMap pf (fuel + 1) token) st (EPost EL S st 0) := by
+    PSafe AP EL S (Parser.parseListOrMap pf (fuel + 1) token) st (EPostR EL S st 0 (EP S)) := by
+  have hpt : PosOK S token.pos := posOK_of hst
   unfold Parser.parseListOrMap
   apply PSafe.bind
   apply next_safe hz hi
@@ -277,16 +284,16 @@ theorem parseListOrMap_ok {fuel : Nat} (ih : ExprSpecs pf AP EL S fuel) (token :
   · apply PSafe.bind
     apply expect_safe hz (upw% hi1) (by decide)
     intro it st2 hi2 _ _ _ hm2 _
-    exact PSafe.pure ⟨hi2, by omega⟩
+    exact PSafe.pure ⟨hi2, by omega, by simp only [EP, EPm]; exact ⟨hpt, trivial⟩⟩
   split
-  · exact PSafe.pure ⟨(upw% hi1), by omega⟩
+  · exact PSafe.pure ⟨(upw% hi1), by omega, by simp only [EP, EPs]; exact ⟨hpt, trivial⟩⟩
   · apply PSafe.bind
     apply backup_safe hi1 (by have := hi.1; omega)
     intro st2 hi2 hm2 _
     rw [ht1] at hm2
     apply PSafe.bind
     apply (ih.parseExpr _ st2 hi2 (by omega)).mono
-    intro firstExpr st3 ⟨hi3, hm3⟩
+    intro firstExpr st3 ⟨hi3, hm3, hpf⟩
     apply PSafe.bind
     apply next_safe hz hi3
     intro tok st4 hi4 hs4 hpc4 ht4 hm4 _
@@ -296,24 +303,24 @@ theorem parseListOrMap_ok {fuel : Nat} (ih : ExprSpecs pf AP EL S fuel) (token :
       have hr := real_of_beq hc (by decide)
       split
       · apply PSafe.bind
-        apply (ih.parseMapItems _ _ st4 (upw% hi4) (by omega)).mono
-        intro items st5 ⟨hi5, hm5⟩
-        exact PSafe.pure ⟨hi5, by omega⟩
+        apply (ih.parseMapItems _ _ st4 (by simp only [EPm]) (upw% hi4) (by omega)).mono
+        intro items st5 ⟨hi5, hm5, hp5⟩
+        exact PSafe.pure ⟨hi5, by omega, by simp only [EP]; exact ⟨hpt, hp5⟩⟩
       · exact errorf_safe hi4
     split
     · rename_i hc
       have hr := real_of_beq hc (by decide)
       apply PSafe.bind
       apply (ih.parseListItems st4 (upw% hi4) (by omega)).mono
-      intro items st5 ⟨hi5, hm5⟩
-      exact PSafe.pure ⟨hi5, by omega⟩
+      intro items st5 ⟨hi5, hm5, hp5⟩
+      exact PSafe.pure ⟨hi5, by omega, by simp only [EP, EPs]; exact ⟨hpt, hpf, hp5⟩⟩
     split
-    · exact PSafe.pure ⟨(upw% hi4), by omega⟩
+    · exact PSafe.pure ⟨(upw% hi4), by omega, by simp only [EP, EPs]; exact ⟨hpt, hpf, trivial⟩⟩
     · exact unexpected_safe hi4 hs4
 
 theorem parseListItems_ok {fuel : Nat} (ih : ExprSpecs pf AP EL S fuel) (st : PState)
     (hi : Inv EL S st) (hf : 8 * mu st + 12 ≤ fuel + 1) :
-    PSafe AP EL S (Parser.parseListItems pf (fuel + 1)) st (EPost EL S st 0) := by
+    PSafe AP EL S (Parser.parseListItems pf (fuel + 1)) st (EPostR EL S st 0 (EPs S)) := by
   unfold Parser.parseListItems
   apply PSafe.bind
   apply peek_safe hz hi
@@ -324,37 +331,38 @@ theorem parseListItems_ok {fuel : Nat} (ih : ExprSpecs pf AP EL S fuel) (st : PS
     apply next_safe hz hi0
     intro t st1 hi1 hs1 _ ht1 hm1 he1
     have hr : real t = 1 := by rw [he1 pk hd0]; exact real_of_beq hb (by decide)
-    exact PSafe.pure ⟨(upw% hi1), by omega⟩
+    exact PSafe.pure ⟨(upw% hi1), by omega, by simp only [EPs]⟩
   · apply PSafe.bind
     apply (ih.parseExpr _ st0 hi0 (by omega)).mono
-    intro e st1 ⟨hi1, hm1⟩
+    intro e st1 ⟨hi1, hm1, hpe⟩
     apply PSafe.bind
     apply next_safe hz hi1
     intro nxt st2 hi2 hs2 hpc2 ht2 hm2 _
     try dsimp only
     split
-    · exact PSafe.pure ⟨(upw% hi2), by omega⟩
+    · exact PSafe.pure ⟨(upw% hi2), by omega, by simp only [EPs]; exact ⟨hpe, trivial⟩⟩
     split
     · exact unexpected_safe hi2 hs2
     · apply PSafe.bind
       apply (ih.parseListItems st2 (upw% hi2) (by omega)).mono
-      intro r st3 ⟨hi3, hm3⟩
-      exact PSafe.pure ⟨hi3, by omega⟩
+      intro r st3 ⟨hi3, hm3, hp3⟩
+      exact PSafe.pure ⟨hi3, by omega, by simp only [EPs]; exact ⟨hpe, hp3⟩⟩
 
 theorem parseMapItems_ok {fuel : Nat} (ih : ExprSpecs pf AP EL S fuel) (key : Bytes) (items : MapItems) (st : PState)
-    (hi : Inv EL S st) (hf : 8 * mu st + 12 ≤ fuel + 1) :
-    PSafe AP EL S (Parser.parseMapItems pf (fuel + 1) key items) st (EPost EL S st 0) := by
+    (hitems : EPm S items) (hi : Inv EL S st) (hf : 8 * mu st + 12 ≤ fuel + 1) :
+    PSafe AP EL S (Parser.parseMapItems pf (fuel + 1) key items) st (EPostR EL S st 0 (EPm S)) := by
   unfold Parser.parseMapItems
   apply PSafe.bind
   apply (ih.parseExpr _ st hi (by omega)).mono
-  intro v st1 ⟨hi1, hm1⟩
+  intro v st1 ⟨hi1, hm1, hpv⟩
+  have hset : EPm S (items.set key v) := EPm.set items key v hitems hpv
   try dsimp only
   apply PSafe.bind
   apply next_safe hz hi1
   intro nxt st2 hi2 hs2 hpc2 ht2 hm2 _
   try dsimp only
   split
-  · exact PSafe.pure ⟨(upw% hi2), by omega⟩
+  · exact PSafe.pure ⟨(upw% hi2), by omega, hset⟩
   split
   · exact unexpected_safe hi2 hs2
   · apply PSafe.bind
@@ -366,7 +374,7 @@ theorem parseMapItems_ok {fuel : Nat} (ih : ExprSpecs pf AP EL S fuel) (key : By
       apply next_safe hz hi2'
       intro t st3 hi3 hs3 _ ht3 hm3 he3
       have hr : real t = 1 := by rw [he3 pk hd2']; exact real_of_beq hb (by decide)
-      exact PSafe.pure ⟨(upw% hi3), by omega⟩
+      exact PSafe.pure ⟨(upw% hi3), by omega, hset⟩
     · apply PSafe.bind
       apply expect_safe hz hi2' (by decide)
       intro tok st3 hi3 hs3 _ _ hm3 _
@@ -374,31 +382,31 @@ theorem parseMapItems_ok {fuel : Nat} (ih : ExprSpecs pf AP EL S fuel) (key : By
       · apply PSafe.bind
         apply expect_safe hz hi3 (by decide)
         intro c st4 hi4 hs4 _ _ hm4 _
-        apply (ih.parseMapItems _ _ st4 hi4 (by omega)).mono
-        intro r st5 ⟨hi5, hm5⟩
-        exact ⟨hi5, by omega⟩
+        apply (ih.parseMapItems _ _ st4 hset hi4 (by omega)).mono
+        intro r st5 ⟨hi5, hm5, hp5⟩
+        exact ⟨hi5, by omega, hp5⟩
       · exact errorf_safe hi3
 
 theorem parseTernary_ok {fuel : Nat} (ih : ExprSpecs pf AP EL S fuel) (cond : Expr) (st : PState)
-    (hi : Inv EL S st) (hf : 8 * mu st + 12 ≤ fuel + 1) :
-    PSafe AP EL S (Parser.parseTernary pf (fuel + 1) cond) st (EPost EL S st 0) := by
+    (hcond : EP S cond) (hi : Inv EL S st) (hf : 8 * mu st + 12 ≤ fuel + 1) :
+    PSafe AP EL S (Parser.parseTernary pf (fuel + 1) cond) st (EPostR EL S st 0 (EP S)) := by
   unfold Parser.parseTernary
   apply PSafe.bind
   apply (ih.parseExpr _ st hi (by omega)).mono
-  intro n1 st1 ⟨hi1, hm1⟩
+  intro n1 st1 ⟨hi1, hm1, hp1⟩
   apply PSafe.bind
   apply expect_safe hz hi1 (by decide)
   intro c st2 hi2 hs2 _ _ hm2 _
   apply PSafe.bind
   apply (ih.parseExpr _ st2 hi2 (by omega)).mono
-  intro n2 st3 ⟨hi3, hm3⟩
-  exact PSafe.pure ⟨hi3, by omega⟩
+  intro n2 st3 ⟨hi3, hm3, hp3⟩
+  exact PSafe.pure ⟨hi3, by omega, by simp only [EP]; exact ⟨hcond.pos, hcond, hp1, hp3⟩⟩
 
 theorem newGlobalNode_ok {fuel : Nat} (ih : ExprSpecs pf AP EL S fuel) (pos : Nat) (name : Bytes) (nxt : Item)
-    (st : PState) (hs : S nxt) (hi : InvW EL S st) (hpc : st.peekCount ≤ 1) (ht : top st = nxt)
+    (st : PState) (hpos : PosOK S pos) (hs : S nxt) (hi : InvW EL S st) (hpc : st.peekCount ≤ 1) (ht : top st = nxt)
     (hf : 8 * (mu st + real nxt) + 8 ≤ fuel + 1) :
     PSafe AP EL S (Parser.newGlobalNode pf (fuel + 1) pos name nxt) st
-      (fun _ st' => Inv EL S st' ∧ mu st' ≤ mu st + real nxt) := by
+      (fun e st' => Inv EL S st' ∧ mu st' ≤ mu st + real nxt ∧ EP S e) := by
   unfold Parser.newGlobalNode
   split
   · rename_i hd
@@ -406,17 +414,18 @@ theorem newGlobalNode_ok {fuel : Nat} (ih : ExprSpecs pf AP EL S fuel) (pos : Na
     apply PSafe.bind
     apply next_safe hz (upw% hi)
     intro n2 st1 hi1 hs1 hpc1 ht1 hm1 _
-    apply (ih.newGlobalNode _ _ n2 st1 hs1 hi1 (by omega) ht1 (by have := real_le n2; omega)).mono
-    intro e st2 ⟨hi2, hm2⟩
-    exact ⟨hi2, by omega⟩
+    apply (ih.newGlobalNode _ _ n2 st1 hpos hs1 hi1 (by omega) ht1 (by have := real_le n2; omega)).mono
+    intro e st2 ⟨hi2, hm2, hp2⟩
+    exact ⟨hi2, by omega, hp2⟩
   · apply PSafe.bind
     apply backup_safe hi hpc
     intro st2 hi2 hm2 _
-    exact PSafe.pure ⟨hi2, by rw [ht] at hm2; omega⟩
+    exact PSafe.pure ⟨hi2, by rw [ht] at hm2; omega, by simp only [EP]; exact hpos⟩
 
-theorem newFunctionNode_ok {fuel : Nat} (ih : ExprSpecs pf AP EL S fuel) (tok : Item) (st : PState)
+theorem newFunctionNode_ok {fuel : Nat} (ih : ExprSpecs pf AP EL S fuel) (tok : Item) (st : PState) (hst : S tok)
     (hi : Inv EL S st) (hf : 8 * mu st + 13 ≤ fuel + 1) :
-    PSafe AP EL S (Parser.newFunctionNode pf (fuel + 1) tok) st (EPost EL S st 0) := by
+    PSafe AP EL S (Parser.newFunctionNode pf (fuel + 1) tok) st (EPostR EL S st 0 (EP S)) := by
+  have hpt : PosOK S tok.pos := posOK_of hst
   unfold Parser.newFunctionNode
   apply PSafe.bind
   apply peek_safe hz hi
@@ -427,19 +436,18 @@ theorem newFunctionNode_ok {fuel : Nat} (ih : ExprSpecs pf AP EL S fuel) (tok : 
     apply next_safe hz hi1
     intro t st2 hi2 _ _ ht2 hm2 he2
     have hr : real t = 1 := by rw [he2 pk hd1]; exact real_of_beq hb (by decide)
-    exact PSafe.pure ⟨(upw% hi2), by omega⟩
+    exact PSafe.pure ⟨(upw% hi2), by omega, by simp only [EP, EPs]; exact ⟨hpt, trivial⟩⟩
   · apply PSafe.bind
     apply (ih.parseFuncArgs st1 hi1 (by omega)).mono
-    intro args st2 ⟨hi2, hm2⟩
-    exact PSafe.pure ⟨hi2, by omega⟩
+    intro args st2 ⟨hi2, hm2, hp2⟩
+    exact PSafe.pure ⟨hi2, by omega, by simp only [EP]; exact ⟨hpt, hp2⟩⟩
 
-theorem parseFuncArgs_ok {fuel : Nat} (ih : ExprSpecs pf AP EL S fuel) (st : PState)
-    (hi : Inv EL S st) (hf : 8 * mu st + 12 ≤ fuel + 1) :
-    PSafe AP EL S (Parser.parseFuncArgs pf (fuel + 1)) st (EPost EL S st 0) := by
+theorem parseFuncArgs_ok {fuel : Nat} (ih : ExprSpecs pf AP EL S fuel) (st : PState) (hi : Inv EL S st)
+    (hf : 8 * mu st + 12 ≤ fuel + 1) : PSafe AP EL S (Parser.parseFuncArgs pf (fuel + 1)) st (EPostR EL S st 0 (EPs S)) := by
   unfold Parser.parseFuncArgs
   apply PSafe.bind
   apply (ih.parseExpr _ st hi (by omega)).mono
-  intro e st1 ⟨hi1, hm1⟩
+  intro e st1 ⟨hi1, hm1, hpe⟩
   apply PSafe.bind
   apply next_safe hz hi1
   intro tok st2 hi2 hs2 hpc2 ht2 hm2 _
@@ -447,10 +455,10 @@ theorem parseFuncArgs_ok {fuel : Nat} (ih : ExprSpecs pf AP EL S fuel) (st : PSt
   split
   · apply PSafe.bind
     apply (ih.parseFuncArgs st2 (upw% hi2) (by omega)).mono
-    intro r st3 ⟨hi3, hm3⟩
-    exact PSafe.pure ⟨hi3, by omega⟩
+    intro r st3 ⟨hi3, hm3, hp3⟩
+    exact PSafe.pure ⟨hi3, by omega, by simp only [EPs]; exact ⟨hpe, hp3⟩⟩
   split
-  · exact PSafe.pure ⟨(upw% hi2), by omega⟩
+  · exact PSafe.pure ⟨(upw% hi2), by omega, by simp only [EPs]; exact ⟨hpe, trivial⟩⟩
   · exact unexpected_safe hi2 hs2
 
 /-- every expression function meets its specification at every fuel level -/
@@ -460,16 +468,16 @@ theorem exprSpecs_all : ∀ fuel, ExprSpecs pf AP EL S fuel := by
   | zero =>
     exact {
       parseExpr := fun _ _ _ h => by omega
-      exprLoop := fun _ _ _ _ h => by omega
+      exprLoop := fun _ _ _ _ _ h => by omega
       firstTerm := fun _ _ h => by omega
       newValueNode := fun _ _ _ _ _ h => by omega
       parseDataRef := fun _ _ h => by omega
       parseListOrMap := fun _ _ _ _ h => by omega
       parseListItems := fun _ _ h => by omega
-      parseMapItems := fun _ _ _ _ h => by omega
-      parseTernary := fun _ _ _ h => by omega
-      newGlobalNode := fun _ _ _ _ _ _ _ _ h => by omega
-      newFunctionNode := fun _ _ _ h => by omega
+      parseMapItems := fun _ _ _ _ _ h => by omega
+      parseTernary := fun _ _ _ _ h => by omega
+      newGlobalNode := fun _ _ _ _ _ _ _ _ _ h => by omega
+      newFunctionNode := fun _ _ _ _ h => by omega
       parseFuncArgs := fun _ _ h => by omega }
   | succ f ih =>
     exact {
